@@ -387,3 +387,4 @@ def run(ctx):
     # tracer find nothing to attach to.  Every exit of a request releases the target (same rule instance as C03/drop-resumes)
     from rules import c03 as _c03d
     _c03d.rule_drop_resumes(ctx, R="C19/failed-request-releases-target")
+    _c03d.rule_lazy_consumed(ctx, R="C19/lazy-effects-consumed")
